@@ -7,14 +7,15 @@ from symx import text as T
 from .common import Spec, Claims
 
 PROPERTY = "C15"
-BOUNDS = ("ACLs of 1..5 (quick) / 1..6 (thorough) lines over {heading 'a', heading 'b', repeated heading 'a', plain remark, ACE}: every "
+BOUNDS = ("ACLs of 1..5 (quick) / 1..6 (thorough) lines over {heading 'a, ..', heading 'b', repeated heading, a DISTINCT heading sharing the text before the comma, plain remark, ACE}: every "
           "placement (none before the first ACE, heading-only blocks, plain remarks inside, repeated heading text), prefixes '= ' and "
           "'=== ', both platforms; sorting: numbering by resequence with SYMBOLIC start/step (group then resequence) or concrete "
           "(start, step) pairs incl. numbers crossing 100 (resequence then group), all permutations of <=4 (quick) / 5 (thorough) "
           "top-level items applied in place; TCAM: address groups with 0..3 members per side.")
 ASSUMPTIONS = ["mostly structural; the solver covers start/step", "permutations are applied in place to acl.items (as list.sort/shuffle do)"]
 
-LINES = {"Ha": "remark {P}a, first block", "Hb": "remark {P}b", "Hd": "remark {P}a, first block", "R": "remark note {i}",
+LINES = {"Ha": "remark {P}a, first block", "Hb": "remark {P}b", "Hd": "remark {P}a, first block", "Hc": "remark {P}a, other block",
+         "R": "remark note {i}",
          "A": "permit tcp host 10.0.{i}.1 any eq {i}", "D": "deny ip any any"}
 
 
@@ -22,10 +23,12 @@ def _shapes(tier):
     n = 5 if tier == "quick" else 6
     out = []
     for k in range(1, n + 1):
-        for combo in itertools.product(["Ha", "Hb", "Hd", "R", "A"], repeat=k):
-            if combo.count("Hd") > 1 or combo.count("Ha") > 1 or combo.count("Hb") > 1:
+        for combo in itertools.product(["Ha", "Hb", "Hd", "Hc", "R", "A"], repeat=k):
+            if combo.count("Hd") > 1 or combo.count("Ha") > 1 or combo.count("Hb") > 1 or combo.count("Hc") > 1:
                 continue
-            if "Hd" in combo and "Ha" not in combo:
+            if ("Hd" in combo or "Hc" in combo) and "Ha" not in combo:
+                continue
+            if "Hd" in combo and "Hc" in combo:
                 continue
             if k >= 5 and (combo.count("R") > 2 or combo.count("A") > 3):
                 continue
